@@ -222,10 +222,14 @@ async fn engine_segment(t: &mut Trace, rng: &mut impl Rng, seg: u64, ops: u64) {
     match scenario {
         0 => {
             // a removed node's address is offered again by another node
-            let ip = v4(20, rng.gen_range(1..200), 1, 1);
+            // (every other time under its IPv4-mapped IPv6 notation: an address of its own as far as admission and release go)
+            let o = rng.gen_range(1..200);
+            let ip = if (seg / 6) % 2 == 0 { v4(20, o, 1, 1) } else { Some(IpAddr::V6(Ipv4Addr::new(20, o, 1, 1).to_ipv6_mapped())) };
             e.add(t, 1, ip, "plain").await;
             e.rm(t, 1, fail).await;
             e.add(t, 17, ip, "plain").await;
+            e.rm(t, 17, !fail).await;
+            e.add(t, 33, ip, if fail { "plain" } else { "ip" }).await;
         }
         1 => {
             // ninth node of a full bucket, then its address from a node of another bucket
